@@ -319,6 +319,64 @@ class UndeclaredNameVisitor(NodeVisitor):
 
     visit_CallBlock = visit_Macro
 
+    def _visit_scope(self, scoped_nodes: t.Iterable[nodes.Node]) -> None:
+        """Visit nodes that are evaluated in a scope of their own.  A
+        name that is assigned there is only declared inside of it.
+        """
+        names = self.names.copy()
+
+        try:
+            for node in scoped_nodes:
+                self.visit(node)
+        except VisitorExit:
+            # Everything that is still looked for inside was found.
+            pass
+
+        self.names = names
+
+        if self.undeclared == self.names:
+            raise VisitorExit()
+
+    def visit_Assign(self, node: nodes.Assign) -> None:
+        # The value is evaluated before the target is assigned.
+        self.visit(node.node)
+        self.visit(node.target)
+
+    def visit_AssignBlock(self, node: nodes.AssignBlock) -> None:
+        # The body and the filter are evaluated in a scope of their own
+        # before the target is assigned.
+        scoped_nodes = list(node.body)
+
+        if node.filter is not None:
+            scoped_nodes.append(node.filter)
+
+        self._visit_scope(scoped_nodes)
+        self.visit(node.target)
+
+    def visit_FilterBlock(self, node: nodes.FilterBlock) -> None:
+        self._visit_scope(node.iter_child_nodes())
+
+    def visit_With(self, node: nodes.With) -> None:
+        # The values are evaluated in the enclosing scope, the targets
+        # are only assigned for the body.
+        for value in node.values:
+            self.visit(value)
+
+        self._visit_scope(chain(node.targets, node.body))
+
+    def visit_For(self, node: nodes.For) -> None:
+        # The iterable is evaluated in the enclosing scope.  The target
+        # is only assigned for the filter and the body, the else branch
+        # does not see it.
+        self.visit(node.iter)
+        scoped_nodes = [node.target]
+
+        if node.test is not None:
+            scoped_nodes.append(node.test)
+
+        self._visit_scope(chain(scoped_nodes, node.body))
+        self._visit_scope(node.else_)
+
     def visit_Block(self, node: nodes.Block) -> None:
         """Stop visiting a blocks."""
 
